@@ -1,9 +1,8 @@
 """C55 - Log formatting never raises."""
 from __future__ import annotations
 
-from sa.astx import src
 from sa.selftest import Mutant, Silent
-from sa.props._lib_k import EVENT, HOSTILE, SAFE, TEXT, EscapeAnalysis
+from sa.props._lib_k import EVENT, HOSTILE, SAFE, EscapeAnalysis
 
 PROPERTY = "C55"
 FMT = "logger/_format.py"
@@ -68,7 +67,7 @@ def _report(ctx, an, entries, rel):
     return len(sites), n_prot
 
 
-def check(ctx):
+def _check_new_style(ctx):
     an = EscapeAnalysis(ctx, [FMT, FLAT])
     for q, kinds in ENTRIES:
         ctx.func(FMT, q)
@@ -78,14 +77,26 @@ def check(ctx):
     # every helper the design names must have been reached from the entry points
     for helper in ("flatFormat", "formatWithCall", "_formatSystem", "_formatTraceback", "formatTime", "formatUnformattableEvent"):
         ctx.need(any(k[1] == helper for k in an.returns), f"{helper} reachable from the formatting entry points")
+    return an.assumed_total
 
+
+def _check_legacy(ctx):
     an2 = EscapeAnalysis(ctx, [LOG], required_keys=("message", "isError"), typed_keys={"message": EVENT, "isError": SAFE})  # message: a real tuple of arbitrary objects
     for q, kinds in LEGACY:
         ctx.func(LOG, q)
         an2.run(LOG, q, kinds)
     n2, prot2 = _report(ctx, an2, LEGACY, LOG)
     ctx.floor("escape/sites(log.py)", n2, 5, "may-raise sites")
-    ctx.extra["assumed_total_callees"] = sorted(an.assumed_total | an2.assumed_total)
+    return an2.assumed_total
+
+
+def check(ctx):
+    total = set()
+    with ctx.section("twisted.logger._format"):
+        total |= _check_new_style(ctx)
+    with ctx.section("twisted.python.log"):
+        total |= _check_legacy(ctx)
+    ctx.extra["assumed_total_callees"] = sorted(total)
 
 
 MUTANTS = [
